@@ -50,6 +50,7 @@ type PropSpec struct {
 	Native      bool                `json:"native_replay"`
 	Race        bool                `json:"race_monitor"`
 	OnlyKinds   []string            `json:"only_kinds"`
+	Selftest    []string            `json:"selftest_packages"`
 }
 
 type Limits struct {
@@ -339,6 +340,15 @@ func cmdRun(args []string) int {
 		}
 		hfns = append(hfns, fn)
 	}
+	// translator validation: the repository's own unit tests of these packages, interpreted
+	var self *selftestResult
+	if len(spec.Selftest) > 0 {
+		r := runSelftest(*repo, *verif, spec.Selftest, "", false, false)
+		self = &r
+		if r.err != nil || r.fail > 0 {
+			fmt.Printf("INCONCLUSIVE property=%s reason=interpreter self-test failed on the repository's own unit tests: %v %v (engine and compiled code disagree; nothing below is trusted)\n", *prop, r.err, r.failed)
+		}
+	}
 	ex := NewExplorer(p, cfg)
 	ex.Run(hfns)
 
@@ -507,6 +517,10 @@ func cmdRun(args []string) int {
 		"trusted_base":         []string{"go/types + go/ssa of golang.org/x/tools v0.29.0", "gosym (this engine)", "cvc5 1.0.3 / z3 4.8.12", "environment stubs listed under stubs"},
 		"checker_cmd":          "bin/gosym run --property " + *prop + " --tier " + *tier,
 		"workers":              cfg.Workers,
+	}
+	if self != nil {
+		ev.Coverage["interpreter_selftest"] = map[string]any{"packages": spec.Selftest, "repo_test_functions_interpreted": self.pass + self.fail + self.skipped, "pass": self.pass, "fail": self.fail, "skipped_unsupported_mock_based": self.skipped, "require_assertions_evaluated": self.asserts}
+		ev.Coverage["traces_validated_against_impl"] = self.pass
 	}
 	writeEv()
 	if *verbose {
